@@ -86,10 +86,26 @@ static void sweep(uint64_t B, vh::Rng & rng, unsigned nrandom)
     }
 }
 
+// boxes whose cell count is a multiple of 2^(bits of the tuple's scalar type): a count kept in that type wraps to 0
+template <typename T>
+static void wrapping_counts()
+{
+    const uint64_t two = sizeof(T) == 1 ? 16 : 256;   // two * two == 2^bits
+    one<T, 2>({two, two}, "count wraps");
+    one<T, 2>({two / 2, two * 2 > 255 && sizeof(T) == 1 ? two : two * 2}, "count wraps");
+    one<T, 3>({two / 4, 4, two}, "count wraps");
+    one<T, 3>({two, 1, two}, "count wraps");
+    one<T, 4>({3, two / 4, 4, two}, "count wraps");
+    one<T, 2>({two - 1, two + 1}, "control");
+}
+
 int main(int argc, char ** argv)
 {
     vh::init(argc, argv);
     bool th = vh::st().thorough;
+    wrapping_counts<unsigned char>();
+    wrapping_counts<unsigned short>();
+    wrapping_counts<short>();
     vh::Rng rng(vh::st().seed * 7919 + 19);
     uint64_t B = th ? 6 : 4;
     unsigned nr = th ? 400 : 60;
